@@ -490,4 +490,101 @@ theorem tiRun_refines (width : G → Int) : ∀ (ops : List (TIOp G)) (m : TI G)
     · simp only [VaxisModel.Spec.Editor.run]
       rw [habsf, habs]
 
+/-! ### Cursor column of `Draw` while the text fits -/
+
+def widthSumI {G : Type} (width : G → Int) : List G → Int
+  | [] => 0
+  | g :: gs => width g + widthSumI width gs
+
+theorem widthSumI_nonneg {G : Type} (width : G → Int) (hw : ∀ g, 0 ≤ width g) (l : List G) :
+    0 ≤ widthSumI width l := by
+  induction l with
+  | nil => simp [widthSumI]
+  | cons g gs ih => have := hw g; simp only [widthSumI]; omega
+
+theorem widthToCursor_le {G : Type} (width : G → Int) (hw : ∀ g, 0 ≤ width g) (cursor offset : Int) :
+    ∀ (l : List G) (i w : Int), widthToCursor width cursor offset l i w ≤ w + widthSumI width l := by
+  intro l
+  induction l with
+  | nil => intro i w; simp [widthToCursor, widthSumI]
+  | cons g gs ih =>
+    intro i w
+    unfold widthToCursor
+    have h1 := hw g
+    have h2 := widthSumI_nonneg width hw gs
+    simp only [widthSumI]
+    split
+    · have := ih (i + 1) w; omega
+    · split
+      · omega
+      · have := ih (i + 1) (w + width g); omega
+
+theorem cursorLoop_fit {G : Type} (width : G → Int) (hw : ∀ g, 0 ≤ width g) (cursorIdx winW : Int) :
+    ∀ (l : List G) (i col cur : Int), 0 ≤ i → col + widthSumI width l < winW →
+    cursorLoop width cursorIdx 0 winW l i col cur =
+      if i < cursorIdx ∧ cursorIdx ≤ i + l.length then col + widthSumI width (l.take (cursorIdx - i).toNat) else cur := by
+  intro l
+  induction l with
+  | nil =>
+    intro i col cur _ _
+    have : ¬ (i < cursorIdx ∧ cursorIdx ≤ i + (([] : List G).length : Int)) := by simp
+    rw [if_neg this]
+    rfl
+  | cons g gs ih =>
+    intro i col cur hi hfit
+    unfold cursorLoop
+    simp only [widthSumI] at hfit
+    have h1 := hw g
+    have h2 := widthSumI_nonneg width hw gs
+    have hi0 : ¬ i < 0 := by omega
+    have hcol : ¬ col + width g ≥ winW := by omega
+    simp only [hi0, ↓reduceIte, hcol]
+    rw [ih (i + 1) (col + width g) _ (by omega) (by omega)]
+    simp only [List.length_cons, Int.natCast_add, Int.cast_ofNat_Int]
+    by_cases hc1 : i + 1 = cursorIdx
+    · have hn : ¬ (i + 1 < cursorIdx ∧ cursorIdx ≤ i + 1 + (gs.length : Int)) := by omega
+      have hp : i < cursorIdx ∧ cursorIdx ≤ i + ((gs.length : Int) + 1) := by omega
+      have ht : (cursorIdx - i).toNat = 1 := by omega
+      rw [if_neg hn, if_pos hp, if_pos hc1, ht]
+      simp [widthSumI]
+    · by_cases hc2 : i + 1 < cursorIdx ∧ cursorIdx ≤ i + 1 + (gs.length : Int)
+      · have hp : i < cursorIdx ∧ cursorIdx ≤ i + ((gs.length : Int) + 1) := by omega
+        have ht : (cursorIdx - i).toNat = (cursorIdx - (i + 1)).toNat + 1 := by omega
+        rw [if_pos hc2, if_pos hp, ht, List.take_succ_cons]
+        simp only [widthSumI]
+        omega
+      · have hp : ¬ (i < cursorIdx ∧ cursorIdx ≤ i + ((gs.length : Int) + 1)) := by omega
+        rw [if_neg hc2, if_neg hp, if_neg hc1]
+
+/-- While prompt + text + scrolloff fit in the window and nothing is scrolled, `Draw` leaves the
+offset at 0 and shows the cursor at prompt width + display width of the text before the cursor. -/
+theorem draw_cursor_fit {G : Type} (width : G → Int) (hw : ∀ g, 0 ≤ width g) (m : TI G) (prompt : List G)
+    (winW col : Int) (hinv : TIInv m) (hoff : m.offset = 0)
+    (hp : promptLoop width winW prompt 0 = some col) (hcol : 0 ≤ col)
+    (hfit : col + widthSumI width m.content + 4 < winW) :
+    draw width m prompt winW = .shown m (col + widthSumI width (m.content.take m.cursor.toNat)) := by
+  obtain ⟨content, cursor, offset, paste⟩ := m
+  obtain ⟨h0, h1, _⟩ := hinv
+  simp only at h0 h1 hoff hfit ⊢
+  subst hoff
+  have hnn := widthSumI_nonneg width hw content
+  have hw0 : ¬ winW = 0 := by omega
+  unfold draw
+  simp only [hw0, ↓reduceIte, hp]
+  have hwtc := widthToCursor_le width hw cursor 0 content 0 0
+  have hcond : ¬ ((0 : Int) < cursor ∧ widthToCursor width cursor 0 content 0 0 + col + 4 ≥ winW) := by omega
+  simp only [scrollLoop, hcond, ↓reduceIte]
+  have hadj : (if (if cursor - 4 - 0 < 0 then cursor - 4 else (0 : Int)) < 0 then (0 : Int)
+      else (if cursor - 4 - 0 < 0 then cursor - 4 else 0)) = 0 := by
+    split <;> split <;> omega
+  rw [hadj]
+  rw [cursorLoop_fit width hw cursor winW content 0 col col (Int.le_refl 0) (by omega)]
+  congr 1
+  by_cases hc : 0 < cursor
+  · rw [if_pos ⟨hc, by omega⟩]
+    simp
+  · have hc0 : cursor = 0 := by omega
+    rw [if_neg (by omega), hc0]
+    simp [widthSumI]
+
 end VaxisModel.Lemmas.TextInput
